@@ -49,6 +49,13 @@ var callbackBlocking = map[string]bool{
 	"client.RpcMultiplexer.cancel":       false,
 }
 
+// fields that hold user-supplied code even when some stored values resolve to library closures
+var userCallback = map[string]bool{
+	"goat.Server.unaryInterceptor": true, "goat.Server.streamInterceptor": true,
+	"goat.ClientConn.unaryInterceptor": true, "goat.ClientConn.streamInterceptor": true,
+	"grpc.MethodDesc.Handler": true, "grpc.StreamDesc.Handler": true,
+}
+
 // non-blocking by type
 func nonBlockingFuncType(t types.Type) bool {
 	k := typeKey(t)
@@ -198,13 +205,12 @@ func (p *Prog) Blocks() *blockEngine {
 			cs := p.calleesOfValue(cc.Value, org)
 			if len(cs) > 0 {
 				e.callees[i] = cs
-				return
 			}
 			if nonBlockingFuncType(cc.Value.Type()) {
 				return
 			}
 			fld := p.callbackField(cc.Value)
-			if blk, known := callbackBlocking[fld]; known {
+			if blk, known := callbackBlocking[fld]; known && (len(cs) == 0 || userCallback[fld]) {
 				if blk {
 					op := &BlockOp{Instr: i, Kind: "callback:" + fld}
 					e.ops[f] = append(e.ops[f], op)
@@ -212,6 +218,9 @@ func (p *Prog) Blocks() *blockEngine {
 						direct[f] = op.Kind + "@" + p.ipos(i)
 					}
 				}
+				return
+			}
+			if len(cs) > 0 {
 				return
 			}
 			// interceptors / handlers passed as parameters of chain builders etc.: by type
